@@ -28,6 +28,7 @@
 #include <sys/stat.h>
 #include <sys/wait.h>
 #include <sys/types.h>
+#include <sys/syscall.h>
 #include "cryptoki.h"
 
 #if defined(__SANITIZE_ADDRESS__)
@@ -682,6 +683,7 @@ static std::string handle(const Req& r)
 
 	// ---- shell commands
 	if (c == "PING") return "{\"pong\":1}";
+	if (c == "MARK") { long rc = syscall(SYS_ioctl, -1, 0x56460000UL + (r.U("n") & 0xFFFF), 0); (void)rc; return "{\"mark\":1}"; }
 	if (c == "PWD") { char b[4096]; if (!getcwd(b, sizeof b)) b[0] = 0; return std::string("{\"dir\":\"") + b + "\",\"depth\":" + std::to_string(depth) + ",\"pid\":" + std::to_string(getpid()) + "}"; }
 	if (c == "ENV") { for (auto& p : r.kv) setenv(p.first.c_str(), p.second.c_str(), 1); return "{\"ok\":1}"; }
 	if (c == "UNSETENV") { for (auto& p : r.kv) unsetenv(p.first.c_str()); return "{\"ok\":1}"; }
